@@ -78,6 +78,14 @@ def gen_script(rng, maxd):
 
 def gen(ctx):
     rng = ctx.rng
+    # a well-formed message at the head of a buffer around and beyond 64 KiB (length arithmetic must not be done in 16 bits)
+    import struct as _st
+    for msg in (W.enc_ready(7), W.enc_measure(3, 9, [1, 2, 3]), W.enc_create(1, 2, 3, 4, 5, 6, 7, b"reno"),
+                _st.pack("<HHI", 0x23, 40000, 1) + bytes(39992)):
+        for total in (65535, 65536, 65537, 65536 + len(msg) - 1, 65536 + len(msg), 131072, 131072 + 5, 200000):
+            if total >= len(msg):
+                yield Case("DEC", W.hx(msg + bytes(total - len(msg))), tags=("bigbuf",))
+        yield Case("DECS", W.hx(msg * 3 + bytes(65536) + msg), tags=("bigbuf",))
     n = 60000 if ctx.thorough else 3000
     maxd = 12 if ctx.thorough else 6
     for _ in range(n):
